@@ -134,11 +134,14 @@ def str_mapper(parent, data):
 
 
 PROFILES = ["str", "obj", "obj_falsy", "obj_pop", "dictwrap", "derived", "typed_str", "typed_obj", "typed_derived", "fs", "fs_plain"]
+# profiles that only C05 uses: a typed tree of DictWrapper objects with the library's DictWrapper mappers
+C05_PROFILES = PROFILES + ["typed_dictwrap"]
+DW_KINDS = ["child", "x", "y", "z"]
 
 
 class Profile:
     def __init__(self, name):
-        assert name in PROFILES
+        assert name in C05_PROFILES
         self.name = name
         self.typed = name.startswith("typed")
         self.pool = {}
@@ -160,13 +163,15 @@ class Profile:
             return TypedTree("T")
         if n == "typed_obj":
             return TypedTree("T", calc_data_id=_calc_id)
+        if n == "typed_dictwrap":
+            return TypedTree("T")
         if n == "typed_derived":
             return MyTypedTree("T")
         return FileSystemTree("T")
 
     def cls(self):
         return {"str": Tree, "obj": Tree, "obj_falsy": Tree, "obj_pop": Tree, "fs_plain": Tree, "dictwrap": Tree, "derived": MyTree, "typed_str": TypedTree,
-                "typed_obj": TypedTree, "typed_derived": MyTypedTree, "fs": FileSystemTree}[self.name]
+                "typed_obj": TypedTree, "typed_derived": MyTypedTree, "fs": FileSystemTree, "typed_dictwrap": TypedTree}[self.name]
 
     def data(self, label):
         if label in self.pool:
@@ -181,7 +186,7 @@ class Profile:
                 d = Person(label, age=20 + LABELS.index(label), guid="p-" + label)
             else:
                 d = Department(label, guid="d-" + label)
-        elif n == "dictwrap":
+        elif n in ("dictwrap", "typed_dictwrap"):
             d = DictWrapper({"name": label, "n": len(label)})
         else:  # fs, fs_plain
             if label in PERSON_LABELS:
@@ -206,6 +211,11 @@ class Profile:
                     kw["data_id"] = opts["id"]
                 if self.typed:
                     kw["kind"] = opts.get("kind") or "child"
+                if self.name == "typed_dictwrap":
+                    # the data_id of a DictWrapper is the id() of its dict, so a clone whose kind differs from its
+                    # first occurrence (written as a full entry) could not be re-united on load by any reader:
+                    # here the kind is a function of the label
+                    kw["kind"] = DW_KINDS[(LABELS.index(label) if label in LABELS else len(label)) % len(DW_KINDS)]
                 n = parent.add(self.data(label), **kw)
                 add_all(n, item[1])
 
@@ -219,7 +229,7 @@ class Profile:
             return obj_serialize_mapper
         if n == "fs_plain":
             return FileSystemTree.serialize_mapper  # the class mappers used as callbacks on a plain Tree
-        if n == "dictwrap":
+        if n in ("dictwrap", "typed_dictwrap"):
             return DictWrapper.serialize_mapper
         return None
 
@@ -231,7 +241,7 @@ class Profile:
             return obj_deserialize_mapper_consuming
         if n == "fs_plain":
             return FileSystemTree.deserialize_mapper
-        if n == "dictwrap":
+        if n in ("dictwrap", "typed_dictwrap"):
             return DictWrapper.deserialize_mapper
         if n in ("str", "typed_str"):
             # dict entries occur for explicit ids (and always for typed trees); the base
@@ -256,7 +266,7 @@ class Profile:
         return d
 
     def id_is_value_derived(self):
-        return self.name not in ("dictwrap", "fs", "fs_plain")
+        return self.name not in ("dictwrap", "typed_dictwrap", "fs", "fs_plain")
 
     def view(self, tree):
         w = walk(tree)
@@ -297,7 +307,7 @@ class Profile:
             keys += ["type", "name", "age"]
         if n == "obj_falsy":
             keys += ["type", "name"]
-        if n == "dictwrap":
+        if n in ("dictwrap", "typed_dictwrap"):
             keys += ["name", "n"]
         if n in ("fs", "fs_plain"):
             keys += ["n", "s", "m", "d"]
@@ -313,7 +323,7 @@ class Profile:
             out.append("kind")
         if n in ("obj", "obj_pop", "derived", "typed_obj", "typed_derived", "obj_falsy"):
             out += ["type", "name"]
-        if n == "dictwrap":
+        if n in ("dictwrap", "typed_dictwrap"):
             out += ["name"]
         if n in ("fs", "fs_plain"):
             out += ["n"]
